@@ -30,6 +30,11 @@ size_t mh_bfs_len(size_t m) {
 size_t mh_rec_len(size_t m) { return m <= 2048 ? mh_bfs_len(m) : 2 + 2 * mh_rec_len(m / 2); }
 size_t mh_table_len(size_t m) { return m == 1 ? 0 : m <= 16 ? m : mh_rec_len(m); }
 
+// driver family of the op lines: "mh" = the hand-written heap model Spq.ModuleHeap (stream mh_arena);
+// "mhs" = the terms GENERATED from the C source of the entry points, run with the kernel record of that model as the
+// semantics of the opaque kernel calls (stream cs_mod; lean/Spq/Drv/ModSrc.lean)
+static const char* g_mh_family = "mh";
+
 // "mh <op> nn <flags> <args> | fftT | ifftT"  (same configuration tokens as family md)
 void mh_cfg(Out& out, const char* op, MODULE* mod, const std::string& args) {
   const uint64_t m = mod->m;
@@ -43,7 +48,7 @@ void mh_cfg(Out& out, const char* op, MODULE* mod, const std::string& args) {
   int mulFma = (void*)mod->mod.fft64.mul_fft->function == (void*)reim_fftvec_mul_fma;
   int addmulFma = (void*)mod->mod.fft64.p_addmul->function == (void*)reim_fftvec_addmul_fma;
   int vmpAvx = (void*)mod->func.vmp_apply_dft_to_dft == (void*)fft64_vmp_apply_dft_to_dft_avx;
-  fprintf(out.ops, "mh %s %" PRIu64 " %d %d %d %d %d %d %d %s | ", op, mod->nn, fftFma, ifftFma, fromB, toV, mulFma, addmulFma, vmpAvx, args.c_str());
+  fprintf(out.ops, "%s %s %" PRIu64 " %d %d %d %d %d %d %d %s | ", g_mh_family, op, mod->nn, fftFma, ifftFma, fromB, toV, mulFma, addmulFma, vmpAvx, args.c_str());
   put_f64bits(out.ops, pf->powomegas, mh_table_len(m));
   fprintf(out.ops, " | ");
   put_f64bits(out.ops, pi->powomegas, mh_table_len(m));
@@ -305,7 +310,21 @@ static void mh_vmp(Out& out, Rng& rng, MODULE* mod, uint64_t nrows, uint64_t nco
   if ((ncols < rsz ? ncols : rsz) % 2 == 1 && ncols > rsz) out.count("vmp_odd_tail_in_pair");
 }
 
+static void mh_arena_body(Out& out, Rng& rng, int thorough);
+
 STREAM(mh_arena) {
+  g_mh_family = "mh";
+  mh_arena_body(out, rng, thorough);
+}
+
+// the same cases, answered by the generated source terms (family mhs)
+STREAM(cs_mod) {
+  g_mh_family = "mhs";
+  mh_arena_body(out, rng, thorough);
+  g_mh_family = "mh";
+}
+
+static void mh_arena_body(Out& out, Rng& rng, int thorough) {
   std::vector<uint64_t> dims = thorough ? std::vector<uint64_t>{2, 4, 8, 16, 32, 64, 128, 256} : std::vector<uint64_t>{2, 4, 8, 16, 32, 64};
   for (uint64_t n : dims)
     for (int mask = 0; mask < 2; mask++) {
